@@ -124,6 +124,7 @@ from ..number import (
     MPBFloatContext,
     MPFixedContext,
     MPSFloatContext,
+    OverflowMode,
     RealFloat,
     RoundingMode,
 )
@@ -489,6 +490,13 @@ class _UnfoldOverflowInstance(BlockRewriter):
             return Declined(
                 'stochastic rounding would have to draw its bits under the '
                 'same format'
+            )
+        if ctx.overflow is OverflowMode.WRAP:
+            # decided here rather than left to the two probes of `_overflow`:
+            # they agree whenever the number of representable values divides
+            # `(2 ** 64 - 2) * maxval`'s ordinal, as it does for 7 values
+            return Declined(
+                'wrapping overflow gives a different answer at every magnitude'
             )
 
         unbounded = _unbounded(ctx)
